@@ -61,13 +61,15 @@ _PREP = {}
 def _tup(nm): return (nm,) if isinstance(nm, str) else tuple(nm)
 
 
-def prepare(rel):
-    if rel in _PREP: return _PREP[rel]
+def prepare(rel, derive=None):
+    """derive: None = the shipped file; else a c06_common.derive() kind (C07 file tier)"""
+    pkey = rel if not derive else (rel, derive)
+    if pkey in _PREP: return _PREP[pkey]
     ld = _load()
     L = ld.t2listing
     T = L.t2listing
     path = os.path.join(ROOT, rel)
-    raw = cc.read_lines(path)
+    raw = c6.derive(cc.read_lines(path), derive)
     fam = cc.family_of(raw)
     sets = c6.scan_sets(raw, fam)
     lines = c6.numbered(raw)
@@ -167,7 +169,8 @@ def prepare(rel):
     P = dict(rel=rel, path=path, raw=raw, fam=fam, sets=sets, bounds=bounds, fullk=fullk, tables=tables, layout=layout,
              oracle=oracle, simulator=lst.simulator, tablenames=list(lst._tablenames),
              has_short=any(s['short'] for s in sets), unread=unread)
-    _PREP[rel] = P
+    P['derive'] = derive
+    _PREP[pkey] = P
     return P
 
 
